@@ -303,9 +303,17 @@ UpdOpret(sh, ev) ==
     [] ev.op = "insert_idle" /\ ok ->
          [base EXCEPT !.idle = [i \in DOMAIN @ \cup {ev.i} |->
                                   IF i = ev.i THEN [st |-> "pending", nd |-> sh.ndisp, inD |-> sh.inDisp,
-                                                    byIdle |-> sh.idlePhase]
+                                                    byIdle |-> sh.idlePhase, pos |-> Len(sh.idleOrder) + 1]
                                   ELSE @[i]],
                       !.idleOrder = Append(@, ev.i)]
+    \* co.d idles at once, numbered co.m + 1 .. co.m + co.d (more than any per-dispatch limit)
+    [] ev.op = "insert_idle_many" /\ ok ->
+         [base EXCEPT !.idle = [i \in DOMAIN @ \cup ((co.m + 1)..(co.m + co.d)) |->
+                                  IF i \in (co.m + 1)..(co.m + co.d)
+                                  THEN [st |-> "pending", nd |-> sh.ndisp, inD |-> sh.inDisp, byIdle |-> sh.idlePhase,
+                                        pos |-> Len(sh.idleOrder) + (i - co.m)]
+                                  ELSE @[i]],
+                      !.idleOrder = @ \o [k \in 1..co.d |-> co.m + k]]
     [] ev.op = "cancel_idle" /\ ok ->
          [base EXCEPT !.idle[ev.i].st = IF @ = "pending" THEN "cancelled" ELSE @]
     [] ev.op = "into_inner" /\ ok -> [base EXCEPT !.held[tgt] = FALSE, !.recovered[tgt] = TRUE]
@@ -511,6 +519,9 @@ ViolCb(sh, ev) ==
                   {<<"C15", "leftover_of_failed_registration_reached_other_source">>})
           \cup If(IsTimer(sh, s) /\ ~sh.armed[s], {<<"C05", "cancelled_arming_fired">>})
           \cup If(IsTimer(sh, s) /\ sh.armed[s], {<<"C05", "wrong_deadline_payload">>})
+          \* C12: the arming that ended the wait is EARLIER than the one the timer asked for (ToDuration counts from now)
+          \cup If(IsTimer(sh, s) /\ sh.armed[s] /\ ~sh.dlPending[s] /\ ev.p < sh.armLo[s],
+                  {<<"C12", "wait_ended_at_a_deadline_earlier_than_requested">>})
           \cup If(Kind(sh, s) = "ping", {<<"C03", "cb_without_ping">>})
           \cup If(Kind(sh, s) = "chan", {<<"C04", "delivery_not_head_of_queue">>})
           \cup If(Kind(sh, s) = "stream", {<<"C10", "stream_item_not_in_order_exactly_once">>}))
@@ -681,7 +692,7 @@ ViolIdleRun(sh, ev) ==
   ELSE LET d == sh.idle[i]
            earlier == {j \in DOMAIN sh.idle : sh.idle[j].st = "pending" /\ j # i
                           /\ ~(sh.idle[j].byIdle /\ sh.idle[j].nd = sh.ndisp)
-                          /\ \E a, b \in DOMAIN sh.idleOrder : a < b /\ sh.idleOrder[a] = j /\ sh.idleOrder[b] = i}
+                          /\ sh.idle[j].pos < d.pos}
        IN If(d.st = "cancelled", {<<"C13", "cancelled_idle_ran">>})
           \cup If(d.st = "ran", {<<"C13", "idle_ran_twice">>})
           \cup If(d.byIdle /\ d.nd = sh.ndisp, {<<"C13", "idle_from_idle_ran_in_same_dispatch">>})
